@@ -286,6 +286,13 @@ const (
 	nHuff        = 5
 )
 
+// MaxGroups (0 = no limit) lets a caller that feeds arbitrary bytes bound the work of this
+// decoder: a 100-byte stream may declare 65536 prefix-code groups, each costing five tree
+// allocations. Streams above the limit are rejected (the witness then decides nothing). /verif addition.
+var MaxGroups int
+
+var errTooManyGroups = errors.New("vp8l: more prefix-code groups than the caller's limit")
+
 // hGroup is an array of 5 Huffman trees.
 type hGroup [nHuff]hTree
 
@@ -319,6 +326,9 @@ func (d *decoder) decodeHuffmanGroups(w int32, h int32, topLevel bool, ccBits ui
 				}
 			}
 		}
+	}
+	if MaxGroups > 0 && maxHGroupIndex+1 > MaxGroups {
+		return nil, nil, 0, errTooManyGroups
 	}
 	hGroups = make([]hGroup, maxHGroupIndex+1)
 	for i := range hGroups {
